@@ -9,6 +9,21 @@
  *   --mode refs    C15: references / buffer references / file segments
  *   --mode sockio  C16: evbuffer_read / evbuffer_write(_atmost) under sysfault
  *   --n1 1         install lockmon callbacks and enable locking on some buffers
+ *
+ * Oracle after every API call (post_op): cleanup ledger (exactly once, not while
+ * the model still has a dependent byte in a live buffer, not while the caller
+ * holds the segment handle), evbuffer_get_length, chain invariants, full copyout
+ * of every memory-readable buffer against the model, reference blocks against a
+ * pristine copy.  Bytes of DRAINS_TO_FD buffers / sendfile-capable segments are
+ * only observed at the far end of a socketpair/pipe.
+ *
+ * Calibrations (search CALIBRATED): failed add_reference does not run the
+ * cleanup; failed add_file_segment gives up the caller's reference; zero-length
+ * file ranges are not exercised; add_buffer_reference may refuse sources with
+ * file-segment/multicast chains; a write/read that moves nothing may return 0
+ * or -1.  Buffers holding buffer-reference chains are never the source of a move
+ * (documented restriction).  Calls known to crash the current tree are first
+ * tried in a forked child so the shard survives and reports a specific key.
  */
 #include "vh.h"
 #include <errno.h>
@@ -475,6 +490,7 @@ static void post_op(const char *op)
 			VIOL("cleanup-twice", "after %s: cleanup of %s #%d ran %d times", op,
 			    o->kind == O_REF ? "reference" : o->kind == O_SEG ? "segment" : "add_file fd", i, o->ncleanup);
 		}
+		if (case_broken) continue;   /* the model is no longer trusted in this case */
 		if (o->kind != O_REF && o->held)
 			VIOL("cleanup-while-handle-held", "after %s: segment #%d cleaned up while the caller still holds its handle", op, i);
 		if (depcnt[i])
@@ -903,7 +919,8 @@ static void op_add_file(vh_rng *r)
  * survives and the defect is still reported with its own key.  Returns the
  * terminating signal (or 1000+exit status) of the child, 0 if it survived. */
 #include <sys/wait.h>
-static int probe_abr_crashes(struct evbuffer *dst, struct evbuffer *src)
+struct probe_arg { struct evbuffer *a, *b; int fd, n; };
+static int probe_crashes(void (*fn)(struct probe_arg *), struct probe_arg *pa)
 {
 	pid_t pid;
 	int st = 0;
@@ -912,19 +929,33 @@ static int probe_abr_crashes(struct evbuffer *dst, struct evbuffer *src)
 	if (pid < 0) return 0;
 	if (pid == 0) {
 		int nul = open("/dev/null", O_WRONLY);
-		unsigned char tmp[64];
 		if (nul >= 0) { dup2(nul, 2); dup2(nul, 1); }
 		signal(SIGABRT, SIG_DFL); signal(SIGSEGV, SIG_DFL); signal(SIGBUS, SIG_DFL);
-		if (evbuffer_add_buffer_reference(dst, src) == 0) {
-			evbuffer_copyout(dst, tmp, sizeof tmp);
-			evbuffer_add(dst, "x", 1);
-		}
+		fn(pa);
 		_exit(0);
 	}
 	while (waitpid(pid, &st, 0) < 0 && errno == EINTR) ;
 	if (WIFSIGNALED(st)) return WTERMSIG(st);
 	if (WIFEXITED(st) && WEXITSTATUS(st)) return 1000 + WEXITSTATUS(st);
 	return 0;
+}
+static void probe_fn_abr(struct probe_arg *pa)
+{
+	unsigned char tmp[64];
+	if (evbuffer_add_buffer_reference(pa->a, pa->b) == 0) {
+		evbuffer_copyout(pa->a, tmp, sizeof tmp);
+		evbuffer_add(pa->a, "x", 1);
+	}
+}
+static int probe_abr_crashes(struct evbuffer *dst, struct evbuffer *src)
+{
+	struct probe_arg pa = { dst, src, -1, 0 };
+	return probe_crashes(probe_fn_abr, &pa);
+}
+/* a request for 0 bytes takes nothing from the shared socket */
+static void probe_fn_read0(struct probe_arg *pa)
+{
+	evbuffer_read(pa->a, pa->fd, 0);
 }
 
 /* ------------------------------------------------------------------ ops: moves between buffers */
@@ -1369,6 +1400,29 @@ static void op_read(vh_rng *r)
 		sf_plan(SF_read, 1, SFA_ZERO, 0); sf_plan(SF_readv, 1, SFA_ZERO, 0);
 	}
 	if (vh_chance(r, 1, 14)) { frozen = 1; evbuffer_freeze(m->eb, 0); }
+	if (howmuch == 0 && !frozen) {
+		/* a request for 0 bytes when the chain that holds the last data is full and is the
+		 * last chain: probed in a child process first (asserts in the current tree) */
+		struct evbuffer_chain *lc = *m->eb->last_with_datap;
+		vh_stat("reads_of_0_bytes");
+		if (lc && lc == m->eb->last && !(lc->flags & EVBUFFER_IMMUTABLE) &&
+		    lc->buffer_len - (size_t)lc->misalign - lc->off == 0) {
+			static int known_sig = -1;
+			struct probe_arg pa = { m->eb, NULL, rd_fd, 0 };
+			int sig;
+			vh_stat("reads_of_0_bytes_into_full_last_chain");
+			sig = known_sig > 0 ? known_sig : probe_crashes(probe_fn_read0, &pa);
+			if (sig) {
+				if (known_sig <= 0)
+					VIOLC("read-howmuch-0-on-full-last-chain:crash",
+					    "evbuffer_read(buf, fd, 0) on a buffer of %zu bytes whose last chain has no room left: child process died with %s %d",
+					    m->len, sig >= 1000 ? "exit status" : "signal", sig >= 1000 ? sig - 1000 : sig);
+				known_sig = sig;
+				sf_reset();
+				return;
+			}
+		}
+	}
 	hmix(24, b, howmuch, plan * 1000003L + parg + ioplan * 7919L + ioarg);
 	TRACE("read b%d howmuch=%ld avail=%zu plan=%d arg=%ld fionread-plan=%d arg=%ld frozen=%d len=%zu", b, howmuch, avail, plan, parg, ioplan, ioarg, frozen, m->len);
 	ncalls = 0;
@@ -1568,7 +1622,6 @@ static const struct wop OPS[] = {
 static void run_case(vh_rng *r)
 {
 	int i, b, nops, wsum = 0, order[NBUF + 64], norder = 0;
-	long cleanups_before;
 	case_broken = 0; case_hash = 0;
 	nobj = 0; ninst = 0;
 	stream_seed = vh_rand(r);
@@ -1610,8 +1663,6 @@ static void run_case(vh_rng *r)
 	for (b = 0; b < NBUF; b++) order[norder++] = b;
 	for (i = 0; i < nobj && norder < NBUF + 64; i++) if (O[i]->kind == O_SEG && O[i]->held) order[norder++] = NBUF + i;
 	for (i = norder - 1; i > 0; i--) { int j = (int)vh_below(r, (uint64_t)i + 1), t = order[i]; order[i] = order[j]; order[j] = t; }
-	cleanups_before = 0;
-	for (i = 0; i < nobj; i++) cleanups_before += O[i]->ncleanup;
 	for (i = 0; i < norder; i++) {
 		if (order[i] < NBUF) {
 			struct mbuf *m = &B[order[i]];
@@ -1652,10 +1703,6 @@ static void run_case(vh_rng *r)
 		free(o);
 	}
 	chan_close();
-	{
-		long total = 0;
-		(void)cleanups_before; (void)total;
-	}
 	vh_stat("cases");
 	if (case_broken) vh_stat("cases_aborted_on_violation");
 	else if (nobj >= 2 || mode_sockio) vh_distinct(case_hash);
